@@ -541,10 +541,43 @@ def boundary_cases(rng):
             out.append((d, None, [(n, None)], doc))
     return out
 
-def gen_filter(tier, rng):
-    n = 2300 if tier == "quick" else 200000
+def exact_bound_cases(rng):
+    """every relative shortcut and every kind of --period pattern with records placed EXACTLY at the ends of the period the clause
+       denotes: one record on the day before the period, on its first day, on its last day and on the day after (and one on the
+       clock date). Clock dates: the first and the last day of every month (so of every quarter and year, too) and the Mondays and
+       Sundays around them, in an ordinary year, a leap year, a century non-leap year and a 400-year leap year. Any clause whose
+       lower or upper bound is off by a single day at any of these boundaries selects a different set of records."""
     out = []
-    for today, sort, flags, doc in boundary_cases(rng):
+    canon = ["this-week", "last-week", "this-month", "last-month", "this-quarter", "last-quarter", "this-year", "last-year"]
+    def doc_for(bounds, today):
+        lo, hi = bounds
+        days = [lo - 1, lo, hi, hi + 1, to_ord(*today)]
+        doc, _ = make_doc(rng, today, big=True, nrec=len(days))
+        rng.shuffle(days)
+        for r, o in zip(doc.records, days):
+            r.ymd = from_ord(o)
+        return doc
+    for y in (2021, 2024, 1900, 2000):
+        clock = []
+        for m in range(1, 13):
+            clock += [(y, m, 1), (y, m, dim(y, m))]
+        for d in list(clock[:4]) + list(clock[-4:]) + [(y, 4, 1), (y, 7, 1), (y, 10, 1)]:
+            mo = monday_ord(to_ord(*d))
+            clock += [from_ord(mo), from_ord(mo + 6)]
+        for today in sorted(set(clock)):
+            for n in canon:
+                name = n if rng.random() < 0.7 else n.replace("-", "")
+                out.append((today, None, [(name, None)], doc_for(shortcut_bounds(n, today), today)))
+        pats = ["%04d" % y] + ["%04d-%02d" % (y, m) for m in range(1, 13)] + ["%04d-Q%d" % (y, q) for q in range(1, 5)] \
+             + ["%04d-W%02d" % (y, w) for w in (1, 2, 9, 10, 13, 14, 26, 27, 39, 40, 51, 52)]
+        for pat in pats:
+            out.append(((y, 6, 15), None, [("period", pat)], doc_for(period_bounds(pat), (y, 6, 15))))
+    return out
+
+def gen_filter(tier, rng):
+    n = 3300 if tier == "quick" else 200000
+    out = []
+    for today, sort, flags, doc in boundary_cases(rng) + exact_bound_cases(rng):
         req = request(today, sort, flags, doc)
         EXPECT[req] = reference(doc, today, sort, flags)
         INFO[req] = (today, flags)
@@ -704,7 +737,7 @@ def suites():
         Suite("filter", gen_filter, oracle=oracle, nontrivial=nontrivial,
               rule="`klog print --no-style` with at most one clause per bound (since|after, until|before, period, the 16 relative shortcuts, "
                    "date|today|yesterday|tomorrow) x 0-3 --tag x --entry-type (13 spellings) x --sort, flags in random order, on generated files "
-                   "(a complete grid of single date clauses x 15 dates around the 2019/2020/2021 year, ISO-week-year, quarter and month boundaries first; then dates clustered around year/ISO-week/quarter/month boundaries, leap days, years 0000 and 9999; duplicates; query dates equal "
+                   "(a complete grid of single date clauses x 15 dates around the 2019/2020/2021 year, ISO-week-year, quarter and month boundaries first; then every relative shortcut at the first/last day of every month and the Mondays/Sundays around them in 2021, 2024, 1900, 2000 and every kind of --period pattern, with records exactly one day outside and on both ends of the denoted period; then dates clustered around year/ISO-week/quarter/month boundaries, leap days, years 0000 and 9999; duplicates; query dates equal "
                    "to record dates and their neighbours; tags with/without values, quoted values, mixed case, in record and entry summaries; "
                    "2% files of 13-40 records for --sort); clock in 0000-01-02..9999-12-30; non-trivial = at least one record selected"),
         Suite("json", gen_json, oracle=oracle, nontrivial=nontrivial,
